@@ -77,7 +77,7 @@ def collectX : Nat → Nat → Option Nat → Iter.AnyIt → List Iter.Out
     | (o, it') => o :: collectX fuel dones post' it'
 
 def runIter (t : Ty) (n : Node) (ro : Bool) : String :=
-  renderOuts (collectX 100000 0 none (Iter.start t n ro))
+  renderOuts (collectX 400000 0 none (Iter.start t n ro))
 
 /-- the tokens of an iterator observation grouped per `Next()` call (`elems`: element iterators,
     whose items are `|`-introduced token groups; bit iterators have one token per call) -/
@@ -342,7 +342,7 @@ where stepH (s : HState) (name : String) (args impl : List String) : Except Stri
       let v1 := (s'.vs[id]!).val
       let vOut := (stepV s.h s.vs (mkOp id)).2
       let itk' := match itk with | .indexed t _ ln i => Iter.AnyIt.indexed t o'.node ln i | x => x
-      let outs2 := collectX 100000 0 none itk'
+      let outs2 := collectX 400000 0 none itk'
       let m := renderOuts outs1 ++ " m=" ++ om ++ (renderOuts outs2).drop 2
       -- PROP, call by call: before the mutation the old components; afterwards the CURRENT
       -- component while the position still exists, an error where it no longer does, the end
